@@ -7,7 +7,7 @@ const C09_RULES: &[&str] = &[
     "SCREAMING-KEBAB-CASE",
 ];
 const C09_ALPHABET: &[char] = &['a', 'b', 'Z', 'Q', '0', '7', '_', 'ä', 'Ä', 'ß', '中'];
-const C09_POSITIONS: &[&str] = &["field", "variant_field_raf", "variant_field_ra", "variant"];
+const C09_POSITIONS: &[&str] = &["field", "variant_field_raf", "variant_field_ra", "variant", "variant_field_both"];
 const C09_EXTRA_IDENTS: &[&str] = &[
     "r#type", "r#fn", "r#match", "r#Type", "r#async", "fooBar", "foo_bar", "FooBar", "Foo_Bar", "_foo", "foo_", "foo__bar",
     "__", "___", "_0", "a1b2", "HTTPServer", "getHTTP_response", "x", "X", "I18n", "ÄpfelÖl", "größe_max", "中文_名",
@@ -30,6 +30,11 @@ fn c09_item(position: &str, rule: &str, ident: &str, serde_spelling: bool) -> St
         }
         "variant_field_ra" => format!("enum Zq9Container {{ #[{attr}(rename_all = \"{rule}\")] Vv {{ {ident}: i32 }} }}"),
         "variant" => format!("#[{attr}(rename_all = \"{rule}\")] enum Zq9Container {{ {ident}, Zz9Other(i32) }}"),
+        // the variant's own rename_all wins over the enum's rename_all_fields (a different rule)
+        "variant_field_both" => {
+            let other = C09_RULES[(C09_RULES.iter().position(|r| *r == rule).unwrap_or(0) + 3) % C09_RULES.len()];
+            format!("#[{attr}(rename_all_fields = \"{other}\")] enum Zq9Container {{ #[{attr}(rename_all = \"{rule}\")] Vv {{ {ident}: i32 }}, Ww {{ other_field: i32 }} }}")
+        }
         _ => unreachable!(),
     }
 }
